@@ -195,6 +195,51 @@ func (m *Model) ruleHLC(r *Results) {
 	} else {
 		r.undecided(rule, "GLOBAL", "-", "the clock is not loaded from a package-level variable")
 	}
+	// STAMP: a closure that is handed a fresh CAS by the allocator and assigns the row's cas column
+	// assigns exactly that CAS, on every path (re-storing the CAS that was read, or the zero a
+	// re-initialised event carries, leaves the row under a CAS that was handed out before)
+	{
+		te := m.newTermEval()
+		allocK := map[*ssa.Function]bool{}
+		for _, tc := range m.txnClosures() {
+			if tc.Kind == "alloc" {
+				allocK[tc.Fn] = true
+			}
+		}
+		ns := 0
+		for _, wu := range m.writeUnits(te) {
+			if !allocK[wu.K] {
+				continue
+			}
+			src := wu.Cols["cas"]
+			if src.Kind == "unassigned" {
+				continue
+			}
+			var casParam *ssa.Parameter
+			for _, p := range wu.K.Params {
+				if b, ok := p.Type().Underlying().(*types.Basic); ok && b.Kind() == types.Uint64 {
+					casParam = p
+				}
+			}
+			key := fmt.Sprintf("STAMP / %s / %s", m.declName(wu.K), wu.Stmt.Shape())
+			ns++
+			if casParam == nil || src.Kind != "bound" || src.Term == nil {
+				r.bad(rule, key, m.instrPos(wu.Site.Call), "the statement assigns the row's cas, but not from the CAS the allocator handed to this closure (%s)", src.Kind)
+				continue
+			}
+			want := m.declName(wu.K) + "." + casParam.Name()
+			bad := ""
+			for _, alt := range src.Term.alts() {
+				if !(alt.Kind == "param" && alt.Name == want) {
+					bad = alt.String()
+				}
+			}
+			r.check(bad == "", rule, key, m.instrPos(wu.Site.Call), "cas := the freshly allocated CAS", "the row's cas can be written as "+bad+" instead of the CAS the allocator handed to this closure: the mutation does not move the document to a new, larger CAS (CAS-guarded writers holding the old one still succeed, feeds resume past it)")
+		}
+		if ns < 8 {
+			r.undecided(rule, "STAMP / instance-floor", "-", "only %d allocator closures assign the cas column", ns)
+		}
+	}
 	// STAMP+MARK: after the write callback, every path of the allocator closure that does not return the
 	// callback's error passes the statements that persist the high-water marks (in the closure or a helper)
 	clos := a.AllocClos
@@ -1831,6 +1876,41 @@ func (m *Model) fieldInCond(v ssa.Value, depth int) (string, bool) {
 			if n, ok := m.fieldInCond(e, depth+1); ok {
 				return n, true
 			}
+		}
+	case *ssa.Call:
+		// a predicate helper: the fields its arguments are, and the fields it reads of the objects
+		// it is handed (`feed.isCheckpointKey(event.Key)`)
+		callee := x.Common().StaticCallee()
+		name := ""
+		for i, a := range x.Common().Args {
+			if n, ok := m.fieldInCond(a, depth+1); ok && n != "KeysOnly" {
+				return n, true
+			} else if ok {
+				name = n
+			}
+			if callee != nil && m.inPkg(callee) && i < len(callee.Params) {
+				// only objects the fan-out decides about: the event, or an element of the registry's
+				// slice (the feed) - not the collection or the bucket the list is fetched from
+				isFeedOrEvent := isPtrToNamed(a.Type(), sgbucketPath, "FeedEvent")
+				if m.A.FeedsField != nil {
+					if mp, ok := m.A.FeedsField.Type().Underlying().(*types.Map); ok {
+						if sl, ok := mp.Elem().Underlying().(*types.Slice); ok && types.Identical(sl.Elem(), a.Type()) {
+							isFeedOrEvent = true
+						}
+					}
+				}
+				if _, isPtr := callee.Params[i].Type().Underlying().(*types.Pointer); isPtr && isFeedOrEvent {
+					for f := range m.fieldsReadThrough(callee, callee.Params[i], map[*ssa.Function]bool{}) {
+						if f.Name() != "KeysOnly" {
+							return f.Name(), true
+						}
+						name = f.Name()
+					}
+				}
+			}
+		}
+		if name != "" {
+			return name, true
 		}
 	}
 	return "", false
